@@ -410,7 +410,9 @@ class BasePolicy(BaseModel, ABC):
             self.action_space, spaces.Box
         ), f"Trying to unscale an action using an action space that is not a Box(): {self.action_space}"
         low, high = self.action_space.low, self.action_space.high
-        return low + (0.5 * (scaled_action + 1.0) * (high - low))
+        # Clip to remove the rounding error of the affine map: for scaled actions at +/-1
+        # the result could exceed a bound by one float32 ulp and leave the action space
+        return np.clip(low + (0.5 * (scaled_action + 1.0) * (high - low)), low, high)
 
 
 class ActorCriticPolicy(BasePolicy):
